@@ -62,7 +62,7 @@ def run(ck):
                        "floating-point sums are compared to 1e-9 relative (re-association across splits)"]
     n = 4
     parts = list(set_partitions(range(1, n + 1)))
-    scn = scenarios(rng, n, 2 if quick else 10)
+    scn = scenarios(rng, n, 2 if quick else 5)
     text, consts, subst = build(n, scn, parts if not quick else parts)
     cfg = mc.cfg(consts=consts, subst=subst, invariants=INV, properties=PROPS, view="View", constraints=["Export"])
     r = tlc.run(ck.work, "MC_GmmStats", cfg, root_text=text, workers=16, coverage=not quick)
@@ -87,7 +87,7 @@ def run(ck):
         if k not in seen:
             seen.add(k)
             uniq.append(b)
-    limit = 400 if quick else 4000
+    limit = 300 if quick else 2000
     if len(uniq) > limit:
         uniq = rng.sample(uniq, limit)
     for b in uniq:
